@@ -24,6 +24,9 @@ RULES = {
                      "frontier visits at least one previously unvisited node)",
     "COUNT-TRUSTED": "TRUSTED: in delete_edges / delete_nodes_witness, remove_count <= count (each increment flips a "
                      "distinct false slot among `count` slots)",
+    "LAXFUNCTOR-ARITY-TRUSTED": "TRUSTED (consequence of the user contract A_L): the tensor of the user functor's operation "
+                                "images has Σ_e Σ_{v∈sources(e)} |F(label v)| sources and likewise targets; used only to excuse the "
+                                "absent results of try_define_map_arrow / map_arrow_witness whose lax composition arity check fails",
     "PERM-SUM": "π a permutation of 0..len(x) (identity, argsort, matrix transposition): sum(x∘π) = sum(x)",
     "ID-GATHER": "gather(x, arange(0,len x)) ≡ x",
 }
